@@ -246,15 +246,19 @@ func c05Sig(clause string, hist []c05Op) string {
 // a small universe of backend URLs in which the same host:port appears over UDP and over TCP and
 // two URLs differ only in the port; k consecutive dispatches over k backends reach each exactly once.
 func c05StaticEval(cur []string) (string, string) {
-	wire := func(u string) string { return strings.Replace(u, "://", ">", 1) }
+	wire := func(u string) string {
+		return strings.Replace(strings.Replace(u, "://", ">", 1), "be9.example.net", "127.0.1.9", 1)
+	}
 	y := "proxies:\n- name: svc.example.com\n  listens:\n  - address: 127.0.0.1\n    udp-port: 5060\n    backends:\n"
 	for _, u := range cur {
 		y += "    - " + u + "\n"
 	}
+	preStart = func() { vnet.SetHost("be9.example.net", false, "127.0.1.9") }
 	s := StartSim(y, SimOpts{})
+	preStart = nil
 	defer s.Close()
 	ua := s.UDPPeer("127.0.0.9:5060")
-	for _, a := range []string{"127.0.1.1:7000", "127.0.1.2:7000", "127.0.1.2:7001"} {
+	for _, a := range []string{"127.0.1.1:7000", "127.0.1.2:7000", "127.0.1.2:7001", "127.0.1.9:7000"} {
 		s.UDPPeer(a)
 		s.TCPListen(a)
 	}
@@ -299,7 +303,7 @@ func c05StaticEval(cur []string) (string, string) {
 }
 
 func c05Static(c *Ctx) {
-	universe := []string{"udp://127.0.1.1:7000", "tcp://127.0.1.1:7000", "udp://127.0.1.2:7000", "tcp://127.0.1.2:7001", "udp://127.0.1.2:7001"}
+	universe := []string{"udp://127.0.1.1:7000", "tcp://127.0.1.1:7000", "udp://127.0.1.2:7000", "tcp://127.0.1.2:7001", "udp://127.0.1.2:7001", "udp://be9.example.net:7000"}
 	var idx int64
 	var rec func(cur []string)
 	rec = func(cur []string) {
@@ -386,7 +390,7 @@ func c05Run(c *Ctx) {
 
 func init() {
 	addCheck(&Check{ID: "C05", Level: "model_checking",
-		Rule:     "every configured backend list of 1-4 entries over 5 backend URLs (the same host:port over UDP and TCP, two URLs differing only in the port) started from YAML and probed with 2k+1 dispatches; explicit-state BFS to a FIXPOINT over the real RoundRobinBackend inside a running proxy: events add(a)/remove(a)/dispatch over 4 (thorough 5) udp and 3 (thorough 5) tcp backend addresses (one tcp backend is registered under a host name with capital letters, resolved by the simulated DNS); state = ordered backend list x cursor x map keys x proxy index; every reachable state is followed by a probe of 2k+1 consecutive dispatches; non-trivial = history longer than one event",
+		Rule:     "every configured backend list of 1-4 entries over 6 backend URLs (the same host:port over UDP and TCP, two URLs differing only in the port, one backend given by host name) started from YAML and probed with 2k+1 dispatches; explicit-state BFS to a FIXPOINT over the real RoundRobinBackend inside a running proxy: events add(a)/remove(a)/dispatch over 4 (thorough 5) udp and 3 (thorough 5) tcp backend addresses (one tcp backend is registered under a host name with capital letters, resolved by the simulated DNS); state = ordered backend list x cursor x map keys x proxy index; every reachable state is followed by a probe of 2k+1 consecutive dispatches; non-trivial = history longer than one event",
 		Assume:   []string{"the fixpoint covers operation sequences of any length over the address universe (finite reachable state space); concurrency half: see C05 race tier"},
 		Run:      c05Run,
 		Collapse: true,
